@@ -281,7 +281,7 @@ pub fn run(run: &mut Run) -> &'static str {
     });
     run.part_extra("distinct_identities_in_map", json!(maps.identities()));
     let cases = run.tier.pick(320, 6_000);
-    run.proptest_part("long_histories", RULE, hist_case(4..120), cases, |case: &HistCase, st: &mut Stats| {
+    run.proptest_part("long_histories", RULE, hist_case(400..1500), cases, |case: &HistCase, st: &mut Stats| {
         let mut obs = Obs { maps: maps_ref, path: 0, recurrences: 0 };
         if let Some((feat, root, ops)) = interpret(case, &Config::long(), st, &mut obs)? {
             if feat.max_depth >= 1025 {
